@@ -186,7 +186,8 @@ type addrList struct {
 	tags  map[string]int
 }
 
-var countClasses = [][2]int{{0, 0}, {1, 6}, {1, 6}, {1, 6}, {1, 6}, {7, 70}, {7, 70}, {480, 500}, {501, 530}, {531, 700}, {1000, 1500}}
+// rapid favours small indices: the plain classes come first
+var countClasses = [][2]int{{1, 6}, {1, 6}, {1, 6}, {7, 70}, {1, 6}, {0, 0}, {7, 70}, {480, 500}, {501, 530}, {531, 700}, {1000, 1500}}
 
 // drawAddrList draws one advertised address list. maxN bounds the size (records must
 // fit one 8 KiB chunk unless oversized on purpose).
@@ -457,7 +458,7 @@ type item struct {
 	size int
 }
 
-var protoCountClasses = [][2]int{{0, 0}, {1, 10}, {1, 10}, {1, 10}, {1, 10}, {1, 10}, {11, 200}, {1000, 1023}, {1024, 1024}, {1025, 1025}, {1026, 1100}, {2000, 3000}}
+var protoCountClasses = [][2]int{{1, 10}, {1, 10}, {1, 10}, {11, 200}, {1, 10}, {0, 0}, {1, 10}, {1000, 1023}, {1024, 1024}, {1025, 1025}, {1026, 1100}, {2000, 3000}}
 
 var chunkTargets = []int{1, 1, 1, 1, 1, 1, 1, 1, 2, 2, 2, 2, 2, 3, 3, 3, 4, 5, 6, 7, 8, 9, 9, 9, 10, 10, 11, 12}
 
@@ -598,7 +599,7 @@ func (w *world) drawMsg(rt *rapid.T, src int, label string) *msgSpec {
 	// layout: the repeated items are cut into runs over `target` chunks (a chunk that
 	// would exceed chunkLimit is continued in a fresh one), scalar fields go to drawn chunks.
 	target := chunkTargets[rapid.IntRange(0, len(chunkTargets)-1).Draw(rt, label+"-chunks")]
-	oversizeOK := rapid.IntRange(0, 14).Draw(rt, label+"-oversize") == 0
+	oversizeOK := rapid.IntRange(0, 14).Draw(rt, label+"-oversize") == 11
 	chunks := make([]*pb.Identify, 0, target)
 	sizes := []int{}
 	newChunk := func() { chunks = append(chunks, &pb.Identify{}); sizes = append(sizes, 0) }
@@ -646,7 +647,7 @@ func (w *world) drawMsg(rt *rapid.T, src int, label string) *msgSpec {
 		if err != nil {
 			panic(err)
 		}
-		if fault == 0 && i == len(chunks)/2 {
+		if fault == 38 && i == len(chunks)/2 {
 			b = []byte{0x0a, 0xff, 0xff, 0xff, 0xff, 0x0f, 1, 2, 3} // garbage chunk: field 1 claims 4 GiB
 			m.malformed = true
 			m.labels = append(m.labels, "fault:garbage-chunk")
@@ -658,7 +659,7 @@ func (w *world) drawMsg(rt *rapid.T, src int, label string) *msgSpec {
 		wire = append(wire, varint.ToUvarint(uint64(len(b)))...)
 		wire = append(wire, b...)
 	}
-	if fault == 1 && len(wire) > 1 {
+	if fault == 39 && len(wire) > 1 {
 		cut := rapid.IntRange(1, len(wire)-1).Draw(rt, label+"-cut")
 		wire = wire[:cut]
 		m.malformed = true // almost always; a cut on a chunk boundary leaves a shorter well-formed message
